@@ -58,7 +58,7 @@ DevEscape(e) ==
      ELSE IF e.base = "storage.open" /\ "F20d" \in KnownDeviations THEN "F20d" ELSE ""
   ELSE ""
 \* F20b: the temp file of a put is path.with_extension("tmp"): keys "x.tmp" and "x.a" interfere
-DevTemp(e) == IF "F20b" \in KnownDeviations /\ IsPair(e)
+DevTemp(e) == IF "F20b" \in KnownDeviations /\ IsPair(e) /\ "k1" \in DOMAIN e.prog
                  /\ \E k \in {e.prog.k1, e.prog.k2} : k.comps[Len(k.comps)] = "pt" THEN "F20b" ELSE ""
 \* F20e: CDN URL / cache-key building slices hex_key[..2], [2..4]: panics for keys shorter than 2 bytes;
 \* F20f: download_range computes offset + length - 1: panics (overflow checks) for length 0 at offset 0
